@@ -155,6 +155,13 @@ func scenarios(w string, r *simctl.Rand, thorough bool) []scenario {
 		add("threshold-1", ItemDirective{Item: it, PassCount: th - 1})
 		add("threshold", ItemDirective{Item: it, PassCount: th})
 	}
+	// the overlapping item passes a sample when min(P1, P2) >= alpha: half of
+	// its failing samples fail through P2 only (BuildMatrix)
+	add("overlapping-threshold-1", ItemDirective{Item: 3, PassCount: th - 1})
+	add("overlapping-threshold", ItemDirective{Item: 3, PassCount: th})
+	// passing samples whose P-value equals alpha exactly (a result passes when
+	// P >= alpha), enough of them to matter if they were counted as failures
+	add("p-equals-alpha", ItemDirective{Item: r.Intn(items), PassCount: -1, AlphaEdge: s - th + 1}, ItemDirective{Item: []int{0, 4, 7, 8}[r.Intn(4)], PassCount: -1, AlphaEdge: s - th + 1})
 	add("zero-pass", ItemDirective{Item: r.Intn(items), PassCount: 0})
 	add("all-items-at-threshold", func() []ItemDirective {
 		var d []ItemDirective
